@@ -238,11 +238,13 @@ func (r *Result) Sample(s any) {
 		r.Samples = append(r.Samples, s)
 	}
 }
+// Fail records an oracle failure. At most 25 failures are kept per class (and 600 in total) so that a
+// frequent (e.g. known) class can never crowd a new class out of the report; all are counted in Distribution.
 func (r *Result) Fail(class, desc string, replay any) {
-	if len(r.Failures) < 200 {
+	r.Distribution["oracle_fail:"+class]++
+	if r.Distribution["oracle_fail:"+class] <= 25 && len(r.Failures) < 600 {
 		r.Failures = append(r.Failures, Failure{class, desc, replay})
 	}
-	r.Distribution["oracle_fail:"+class]++
 }
 func (r *Result) Note(s string) { r.Notes = append(r.Notes, s) }
 
